@@ -39,6 +39,8 @@ pub enum Call {
 const P: &str = "p::a::P";
 const C: &str = "p::a::C";
 const Q: &str = "p::b::Q";
+/// reachable from P only through the marker-only generic argument of `Mk<K>`
+const K: &str = "p::a::K";
 const D1: &str = "::d::One";
 const D2: &str = "::d::Two";
 /// a different path with the same final identifier as D1
@@ -61,6 +63,7 @@ fn sub_args() -> Vec<(String, String)> {
     v.push((P.into(), "::t::X(A)".into())); // ... on the target
     v.push(("p::a::P<a::B>".into(), "::t::X".into())); // non-identifier source generic
     v.push((P.into(), "::t::X<[A; 2]>".into())); // non-path target generic
+    v.push(("p::a::P<A>".into(), "::t::X<A, [A; 2]>".into())); // ... in the SECOND position (the first is fine)
     v.push(("".into(), "::t::X".into())); // empty source path
     v
 }
@@ -155,7 +158,7 @@ fn pair_error(s: &str, t: &str) -> Option<&'static str> {
     if s.contains("<a::B>") {
         return Some("InvalidFromType");
     }
-    if t.contains("<[") {
+    if t.contains("[A;") {
         return Some("InvalidToType");
     }
     None
@@ -363,16 +366,19 @@ fn observe(real: &Real) -> Model {
 }
 
 fn probe_registry() -> scale_info::PortableRegistry {
-    // P { c: C }, C { v: u8 }, Q(u16)
+    // P { c: C, m: Mk<K> }, C { v: u8 }, Q(u16), Mk<T> { v: u8, PhantomData<T> }, K { k: u8 }: K is reachable from
+    // P only through a generic argument that no field of Mk mentions
     let defs = vec![
         Def::strukt(
             &["p", "a"],
             "P",
             &[],
-            named(vec![("c", Ty::Named(1, vec![]))]),
+            named(vec![("c", Ty::Named(1, vec![])), ("m", Ty::Named(3, vec![Ty::Named(4, vec![])]))]),
         ),
         Def::strukt(&["p", "a"], "C", &[], named(vec![("v", U8)])),
         Def::strukt(&["p", "b"], "Q", &[], unnamed(vec![U16])),
+        Def::strukt(&["p", "a"], "Mk", &["T"], named(vec![("v", U8), ("p", Ty::Phantom(b(Ty::Param(0))))])),
+        Def::strukt(&["p", "a"], "K", &[], named(vec![("k", U8)])),
     ];
     elaborate(&Program {
         defs,
@@ -411,6 +417,7 @@ fn expected_on(m: &Model, path: &str) -> (BTreeSet<String>, BTreeSet<String>) {
     let ancestors: &[&str] = match path {
         P => &[P],
         C => &[C, P],
+        K => &[K, P],
         _ => &[Q],
     };
     if let Some(x) = m.spec_d.get(path) {
@@ -624,7 +631,7 @@ pub fn check_history(h: &[Call], ctx: &mut Ctx) -> Model {
         match out {
             GenOutcome::Ok { tokens } => match parse_emitted(&tokens) {
                 Ok(em) => {
-                    for path in [P, C, Q] {
+                    for path in [P, C, Q, K] {
                         let mut full = vec!["types".to_string()];
                         full.extend(path.split("::").map(|s| s.to_string()));
                         let Some(item) = em.items.get(&full) else {
